@@ -31,7 +31,7 @@ ANCHORS = [
     "acnportal.acnsim.interface:Interface._infrastructure_info",
     "acnportal.algorithms.utils:infrastructure_constraints_feasible",
 ]
-REQUIRED = ["phasor_judged", "linear_judged", "near_boundary_judged", "constraint_free_sim_runs", "history_rejudged",
+REQUIRED = ["explicit_tolerances_differ_from_network", "explicit_zero_tolerance_on_tolerant_network", "phasor_judged", "linear_judged", "near_boundary_judged", "constraint_free_sim_runs", "history_rejudged",
             "history_op:remove_not_last", "history_op:update", "history_op:update_rename", "history_op:add",
             "regime:phasor-accept", "regime:phasor-reject", "regime:linear-accept", "regime:linear-reject",
             "regime:T>1", "regime:mixed-sign"]
@@ -80,6 +80,11 @@ def cases(seed, tier):
         neg = rng.random() < 0.1
         if neg:
             D = [[-x if rng.random() < 0.3 else x for x in r] for r in D]
+        if rng.random() < 0.3:
+            # the network is built with one pair of tolerances, every call passes another pair explicitly (zeros included)
+            nd["built_tol"] = [rng.choice([1e-5, 1e-3, 1e-2]), rng.choice([1e-7, 1e-4, 1e-3])]
+            if rng.random() < 0.6:
+                nd["tol"] = [rng.choice([0, 0, 1e-7]), rng.choice([0, 0, 1e-7])]
         out.append({"kind": "feas", "net": nd, "D": D, "k": rng.choice(KS), "mode": rng.choice(["phasor", "linear"]),
                     "omit": rng.random() < 0.3, "oseed": rng.randrange(1 << 30), "use_defaults": rng.random() < 0.25})
         if i % 6 == 0:
@@ -153,7 +158,12 @@ def _judge(nd, S, obs, ts=1e-7, omit=False, oseed=0, use_defaults=False, tag=Non
     ids, A, L, ang, names = oracles.dense_rows(nd)
     at, rt = nd["tol"]
     if net is None:
-        net = build.build_network(nd)
+        # `built_tol`: the network object carries other tolerances than the ones passed explicitly with each call
+        net = build.build_network(dict(nd, tol=nd.get("built_tol") or nd["tol"]))
+        if nd.get("built_tol") is not None:
+            obs.ev("explicit_tolerances_differ_from_network")
+            if 0 in (at, rt):
+                obs.ev("explicit_zero_tolerance_on_tolerant_network")
     if iface is None:
         iface = _iface(net)
     Sm = np.array(S, dtype=float)
@@ -176,7 +186,7 @@ def _judge(nd, S, obs, ts=1e-7, omit=False, oseed=0, use_defaults=False, tag=Non
     for linear in (False, True):
         m, where = oracles.margins(A, L, ang, S, at, rt, linear=linear)
         mode = "linear" if linear else "phasor"
-        kw = {} if use_defaults else {"violation_tolerance": at, "relative_tolerance": rt}
+        kw = {} if (use_defaults and nd.get("built_tol") is None) else {"violation_tolerance": at, "relative_tolerance": rt}
         r_net = bool(net.is_feasible(Sm, linear=linear, **kw))
         r_if = bool(iface.is_feasible(sched, linear=linear, **kw))
         r_alg = bool(icf(Sm, info, linear, at, rt))
